@@ -58,6 +58,9 @@ from inscripta.biocantor.sequence import Sequence  # noqa: E402
 from inscripta.biocantor.sequence.alphabet import Alphabet  # noqa: E402
 
 PARENT_CLS = Parent.__wrapped__
+LOC_KINDS = ("single", "compound", "empty")                         # gen_objects kinds that build a Location
+FEATURE_LIKE = ("cds", "transcript", "feature", "variant")          # AbstractFeatureInterval subclasses
+VARIANT_TARGETS = ("cds", "transcript", "feature", "gene", "featcoll", "annot")     # kinds with incorporate_variants
 ADDR = re.compile(r" at 0x[0-9a-fA-F]+")
 
 
@@ -249,7 +252,7 @@ class Ctx:
         self.pos = d["pos"]
         self.window = d["window"]
         self.operands = {}
-        if recipe.kind in ("single", "compound"):
+        if recipe.kind in LOC_KINDS:
             for i, o in enumerate(recipe.other_locations()):
                 self.operands[f"o{i}"] = o
         if recipe.kind == "parent":
@@ -333,7 +336,7 @@ def _tables(recipe, obj):
     t["__eq__:twin"] = lambda o, c: o == c.twin
     if k != "parent":
         t["__len__"] = lambda o, c: len(o)
-    if k in ("single", "compound"):
+    if k in LOC_KINDS:
         for i in range(len(d.get("others", []))):
             oi = f"o{i}"
             for m in ("union", "intersection", "minus", "has_overlap", "contains", "distance_to",
@@ -364,6 +367,13 @@ def _tables(recipe, obj):
             lambda o, c: o.lift_over_to_first_ancestor_of_type("chromosome")
         t["lift_over_to_sequence:chrom"] = lambda o, c: o.lift_over_to_sequence(c.chrom_seq)
         t["has_ancestor_sequence:chrom"] = lambda o, c: o.has_ancestor_sequence(c.chrom_seq)
+        t["scan_windows:3,2,1"] = lambda o, c: o.scan_windows(3, 2, 1)
+        t["distance_to:o0:outer"] = lambda o, c: o.distance_to(c.operands["o0"], distance_type=_distance_type("OUTER"))
+        t["contains:o0:loose"] = lambda o, c: o.contains(c.operands["o0"], match_strand=False, full_span=True,
+                                                         strict_parent_compare=True)
+        t["parent_to_relative_location:o0:noopt"] = \
+            lambda o, c: o.parent_to_relative_location(c.operands["o0"], optimize_blocks=False) \
+            if k != "empty" else o.parent_to_relative_location(c.operands["o0"])
     elif k == "parent":
         t["equals_except_location:twin"] = lambda o, c: o.equals_except_location(c.twin)
         t["first_ancestor_of_type:chromosome"] = lambda o, c: o.first_ancestor_of_type("chromosome")
@@ -385,6 +395,10 @@ def _tables(recipe, obj):
         t["has_ancestor_of_type:chromosome"] = lambda o, c: o.has_ancestor_of_type("chromosome")
         t["has_ancestor_of_type:CHROMOSOME:noself"] = \
             lambda o, c: o.has_ancestor_of_type(SequenceType.CHROMOSOME, include_self=False)
+        t["validate_alphabet:own"] = lambda o, c: Sequence.validate_alphabet(str(o), o.alphabet)
+        t["validate_alphabet:bad"] = lambda o, c: Sequence.validate_alphabet(str(o) + "!", o.alphabet)
+        t["reverse_complement:new:type"] = lambda o, c: o.reverse_complement(new_id="rc", new_type="rctype")
+        t["append:other:newid"] = lambda o, c: o.append(c.operands["other"], new_id="app")
     else:
         # interval kinds ------------------------------------------------------------------
         t["to_dict:chunk"] = lambda o, c: o.to_dict(chromosome_relative_coordinates=False)
@@ -397,7 +411,13 @@ def _tables(recipe, obj):
         t["first_ancestor_of_type:chromosome"] = lambda o, c: o.first_ancestor_of_type("chromosome")
         t["lift_over_to_first_ancestor_of_type:chromosome"] = \
             lambda o, c: o.lift_over_to_first_ancestor_of_type("chromosome")
-        if k in ("cds", "transcript", "feature"):
+        if k in VARIANT_TARGETS:
+            # operations that take a VariantInterval / VariantIntervalCollection (fresh ones per call); the whole
+            # placement x type x container grid is in impl_operands.arg_table
+            for pl, vt, coll in (("inside", "snv", False), ("aftermin", "ins", True), ("before", "del", False)):
+                t[f"incorporate_variants:{pl}:{vt}:{'vc' if coll else 'v'}"] = \
+                    (lambda pl, vt, coll: lambda o, c: o.incorporate_variants(c.recipe.build_variants(pl, vt, coll)))(pl, vt, coll)
+        if k in FEATURE_LIKE:
             t["to_bed12:chunk"] = lambda o, c: o.to_bed12(chromosome_relative_coordinates=False)
             t["to_bed12:guid"] = lambda o, c: o.to_bed12(score=5, name="guid")
             t["export_qualifiers:parent"] = lambda o, c: o.export_qualifiers({"yy": {"P"}, "zz": {"1", "2"}})
@@ -408,6 +428,12 @@ def _tables(recipe, obj):
             for j, p in enumerate(d["pos"][:3]):
                 t[f"sequence_pos_to_feature:p{j}"] = (lambda p: lambda o, c: o.sequence_pos_to_feature(p))(p)
                 t[f"chunk_relative_pos_to_feature:p{j}"] = (lambda p: lambda o, c: o.chunk_relative_pos_to_feature(p))(p)
+            # positions that certainly lie on the interval (a variant is 1-3 bases long)
+            t["sequence_pos_to_feature:start"] = lambda o, c: o.sequence_pos_to_feature(o.start)
+            t["chunk_relative_pos_to_feature:start"] = \
+                lambda o, c: o.chunk_relative_pos_to_feature(o.chunk_relative_location.start)
+            t["sequence_interval_to_feature:own"] = lambda o, c: o.sequence_interval_to_feature(o.start, o.end, Strand.PLUS)
+            t["feature_interval_to_sequence:0,1"] = lambda o, c: o.feature_interval_to_sequence(0, 1, Strand.PLUS)
             for j in range(3):
                 t[f"feature_pos_to_sequence:r{j}"] = (lambda j: lambda o, c: o.feature_pos_to_sequence(j * 4))(j)
                 t[f"feature_pos_to_chunk_relative:r{j}"] = (lambda j: lambda o, c: o.feature_pos_to_chunk_relative(j * 4))(j)
@@ -418,6 +444,38 @@ def _tables(recipe, obj):
                 lambda o, c: o.feature_interval_to_chunk_relative(2, 9, Strand.PLUS)
             t["chunk_relative_interval_to_feature:win"] = \
                 lambda o, c: o.chunk_relative_interval_to_feature(max(0, a - 3), b, Strand.PLUS)
+        if k in ("cds", "transcript"):
+            # the remaining coordinate conversions (position / interval, CDS / transcript / chunk-relative)
+            a, b = d["window"]
+            names = ["cds_interval_to_chunk_relative", "cds_interval_to_sequence", "chunk_relative_interval_to_cds",
+                     "sequence_interval_to_cds"]
+            pnames = ["cds_pos_to_chunk_relative", "chunk_relative_pos_to_cds"]
+            if k == "transcript":
+                names += ["chunk_relative_interval_to_transcript", "sequence_interval_to_transcript",
+                          "transcript_interval_to_chunk_relative"]
+                pnames += ["chunk_relative_pos_to_transcript", "transcript_pos_to_chunk_relative"]
+            for m in names:
+                if m.startswith(("cds_interval", "transcript_interval")):
+                    t[f"{m}:2,9"] = (lambda m: lambda o, c: getattr(o, m)(2, 9, Strand.PLUS))(m)
+                else:
+                    t[f"{m}:win"] = (lambda m: lambda o, c: getattr(o, m)(a, b, Strand.PLUS))(m)
+            for m in pnames:
+                if m.startswith(("cds_pos", "transcript_pos")):
+                    t[f"{m}:r1"] = (lambda m: lambda o, c: getattr(o, m)(4))(m)
+                else:
+                    t[f"{m}:p0"] = (lambda m, p: lambda o, c: getattr(o, m)(p))(m, d["pos"][0])
+        if k == "variant":
+            _variant_calls(t, d)
+        if k == "varcoll":
+            _variant_calls(t, d)
+            t["query_by_guids:first"] = lambda o, c: o.query_by_guids([next(iter(o)).guid])
+            t["query_by_guids:all"] = lambda o, c: o.query_by_guids([x.guid for x in o])
+            t["query_by_guids:none"] = lambda o, c: o.query_by_guids([uuid.UUID(int=7)])
+            t["query_by_guids:single"] = lambda o, c: o.query_by_guids(next(iter(o)).guid)
+            t["__iter__"] = lambda o, c: iter(o)
+            for name in ("to_dict", "chromosome_location", "qualifiers", "alternative_genomic_sequence",
+                         "parent_with_alternative_sequence", "length_difference"):
+                t["child0." + name] = (lambda name: lambda o, c: _get(next(iter(o)), name))(name)
         if k in ("transcript", "feature"):
             a, b = d["window"]
             t["intersect:win"] = lambda o, c: o.intersect(SingleInterval(a, b, Strand.PLUS))
@@ -475,6 +533,7 @@ def _tables(recipe, obj):
             t["get_children_by_type:gene"] = lambda o, c: o.get_children_by_type("gene")
             t["get_children_by_type:feature"] = lambda o, c: o.get_children_by_type("feature_collection")
             t["to_dict:parent"] = lambda o, c: o.to_dict(export_parent=True)
+            t["__setstate__:pickle"] = _pickle_roundtrip
             t["__iter__"] = lambda o, c: iter(o)
             t["to_genbank"] = _to_genbank
             for name in CDS_CHILD_NAMES:
@@ -516,6 +575,43 @@ def _cds_calls(t, d, L, prefix):
         t[f"cds_pos_to_sequence:r{j}"] = (lambda j: lambda o, c: o.cds_pos_to_sequence(j * 4))(j)
 
 
+def _distance_type(name):
+    from inscripta.biocantor import DistanceType
+    return DistanceType[name]
+
+
+def variant_probe_locations(d, parent):
+    """locations handed to `lift_over_location`: before / across / after the (first) variant, single and compound, on
+    `parent` (chromosome coordinates)"""
+    vs = [d["var"]] if "var" in d else sorted(d["vc"]["vars"], key=lambda v: v["start"])
+    s, e, L = vs[0]["start"], vs[-1]["end"], d["L"]
+    out = {"before": SingleInterval(0, max(1, vs[0]["start"] - 1), Strand.PLUS, parent=parent),
+           "over": SingleInterval(max(0, s - 2), min(L, vs[0]["end"] + 3), Strand.MINUS, parent=parent),
+           "after": SingleInterval(min(L - 1, e + 1), L, Strand.PLUS, parent=parent),
+           "within": SingleInterval(vs[0]["start"], vs[0]["end"], Strand.PLUS, parent=parent)}
+    if s >= 2 and e + 2 <= L:
+        out["compound"] = CompoundInterval([0, max(1, s - 1), e + 1], [1, min(L, vs[0]["end"] + 1), L], Strand.PLUS,
+                                           parent=parent)
+    return out
+
+
+def _variant_calls(t, d):
+    """VariantInterval / VariantIntervalCollection: lifting locations over the variant(s)"""
+    for name in ("before", "over", "after", "within", "compound"):
+        t[f"lift_over_location:{name}"] = (lambda name: lambda o, c: o.lift_over_location(
+            variant_probe_locations(c.recipe.data, c.recipe.chromosome_parent(False))[name]))(name)
+        # the location hangs on the object's own kind of parent (chunk-relative in chunk mode)
+        t[f"lift_over_location:{name}:own"] = (lambda name: lambda o, c: o.lift_over_location(
+            AbstractInterval.liftover_location_to_seq_chunk_parent(
+                variant_probe_locations(c.recipe.data, None)[name], c.recipe.parent())))(name)
+    t["lift_over_location:empty"] = lambda o, c: o.lift_over_location(_empty())
+
+
+def _empty():
+    from inscripta.biocantor.location.location_impl import EmptyLocation
+    return EmptyLocation()
+
+
 def _get(o, name):
     if o is None:
         return None
@@ -526,6 +622,12 @@ def _get(o, name):
     if type(st).__name__ in ("function", "_MethodRope"):
         return v()
     return v
+
+
+def _pickle_roundtrip(o, c):
+    """AnnotationCollection defines __getstate__ / __setstate__: the unpickled copy is asked for its dictionary form"""
+    import pickle
+    return pickle.loads(pickle.dumps(o))
 
 
 def _to_genbank(o, c):
@@ -613,7 +715,8 @@ def snapshot(obj, ctx):
         if isinstance(o, AbstractInterval):
             rec["qualifiers"] = canon(getattr(o, "qualifiers", None))
             rec["children"] = ["list"] + [
-                {"__type__": "child", "guid": canon(ch.guid), "qualifiers": canon(ch.qualifiers), "hash": f"int:{hash(ch)}"}
+                {"__type__": "child", "guid": canon(ch.guid), "qualifiers": canon(ch.qualifiers), "hash": f"int:{hash(ch)}",
+                 "location": _child_location(ch)}
                 for ch in _children(o)]
         out[name] = rec
     try:
@@ -621,6 +724,14 @@ def snapshot(obj, ctx):
     except Exception as e:  # noqa
         out["eq_twin"] = "exc:" + type(e).__name__
     return out
+
+
+def _child_location(ch):
+    """where a child sits: its location with the whole parent chain (ids, sequence types, BASES of the sequence)"""
+    try:
+        return _canon_loc(ch.chunk_relative_location, 0, with_parent=True)
+    except Exception as e:  # noqa
+        return "exc:" + type(e).__name__
 
 
 def snap_diff(a, b):
@@ -688,7 +799,10 @@ def filler(tok, recipe, seed, step, table=None, tokens=()):
         recipe.build()
         return True
     if tok == "S":
-        for sib in recipe.siblings():
+        sibs = recipe.siblings()
+        # which sibling comes first varies with the line (a first-writer-wins memo keeps the FIRST sibling's value)
+        k = (seed + step) % len(sibs)
+        for sib in sibs[k:] + sibs[:k]:
             try:
                 so = sib.build()
             except Exception:  # noqa  (a sibling may be unconstructible, e.g. frames no longer fit)
@@ -821,6 +935,16 @@ def _in_child(fn):
 
 def serve():
     """main loop of the helper: never touches the library itself"""
+    # imported (not run) here, so that the forked children do not pay for the import on every line; importing it makes no
+    # library call
+    from harness import impl_operands  # noqa: F401
+    # ... and the modules the library itself imports lazily inside functions (parent_with_alternative_sequence,
+    # AnnotationCollection.from_dict -> io.parser; the GenBank writer of the `to_genbank` question)
+    for name in ("inscripta.biocantor.io.parser", "inscripta.biocantor.io.genbank.writer"):
+        try:
+            __import__(name)
+        except Exception:  # noqa  (then the children import it themselves, as before)
+            pass
     sys.stdout.write("ready\n")
     sys.stdout.flush()
     for line in sys.stdin:
